@@ -142,12 +142,26 @@ def run_check_on(src: str, prop: str, tier: str, timeout=1500, extra_env=None):
     if extra_env:
         env.update(extra_env)
     t0 = time.time()
-    try:
-        p = subprocess.run([sys.executable, os.path.join(VERIF, "check"), prop, "--tier", tier], capture_output=True, text=True,
-                           env=env, cwd=VERIF, timeout=timeout)
-        rc, out, err = p.returncode, p.stdout, p.stderr
-    except subprocess.TimeoutExpired as e:
-        rc, out, err = 124, (e.stdout or b"").decode() if isinstance(e.stdout, bytes) else (e.stdout or ""), "timeout"
+    # output goes to files, not pipes: an orphaned grandchild holding a pipe open must not be able to block us; the whole
+    # process group is killed afterwards
+    import signal
+    import tempfile
+
+    with tempfile.TemporaryFile("w+") as fo, tempfile.TemporaryFile("w+") as fe:
+        p = subprocess.Popen([sys.executable, os.path.join(VERIF, "check"), prop, "--tier", tier], stdout=fo, stderr=fe, env=env, cwd=VERIF,
+                             start_new_session=True)
+        try:
+            rc = p.wait(timeout=timeout)
+        except subprocess.TimeoutExpired:
+            rc = 124
+        try:
+            os.killpg(p.pid, signal.SIGKILL)
+        except OSError:
+            pass
+        p.wait()
+        fo.seek(0)
+        fe.seek(0)
+        out, err = fo.read(), fe.read() + ("\ntimeout" if rc == 124 else "")
     return rc, out, err, time.time() - t0
 
 
